@@ -228,6 +228,7 @@ func init() {
 			{Name: "histories", Run: codecHistories("fastq")},
 			{Name: "readerzoo", TShards: 4, Run: zooUnit("fastq")},
 			{Name: "exactsizes", QShards: 2, TShards: 4, Run: exactSizeUnit("fastq")},
+			{Name: "tiny", TShards: 4, Run: tinyUnit("fastq")},
 			{Name: "namesbyseq", QShards: 2, TShards: 4, Run: c02NamesBySeq},
 			firstCallUnit(firstCodec("fastq")),
 		},
